@@ -72,7 +72,11 @@ func nilchan() chan int { return nil }
 //go:noinline
 func nilfunc() func() int { return nil }
 
+type emptyI interface{}
 type stringer interface{ String() string }
+
+//go:noinline
+func nilstringer() stringer { return nil }
 type named int
 
 func (n named) String() string { return "named" }
@@ -230,6 +234,15 @@ def cases(rng, n_extra):
     add("assert-fail", "x := boxi(1); println(x.(string))")
     add("assert-fail", "x := boxi(1); println(x.(stringer).String())")
     add("assert-fail", "x := nilface(); println(x.(int))")
+    # nil interface values asserted to (other) interface types, empty ones included
+    add("assert-nil-iface", "x := nilface(); y := x.(emptyI); println(y == nil)")
+    add("assert-nil-iface", "i := nilstringer(); y := i.(interface{}); println(y == nil)")
+    add("assert-nil-iface", "i := nilstringer(); y := i.(emptyI); println(y == nil)")
+    add("assert-nil-iface-commaok", "x := nilface(); y, ok := x.(emptyI); println(y == nil, ok)")
+    add("assert-nil-iface-commaok", "i := nilstringer(); y, ok := i.(interface{}); println(y == nil, ok)")
+    add("assert-nil-iface-switch", "x := nilface(); switch x.(type) { case emptyI: println(1); case nil: println(2); default: println(3) }")
+    add("assert-nil-iface-switch", "i := nilstringer(); switch i.(type) { case interface{}: println(1); default: println(3) }")
+    add("assert-ok", "x := boxi(7); y := x.(emptyI); println(y != nil)")
     add("assert-ok", "x := boxi(7); println(x.(int))")
     add("assert-ok", "x := boxn(7); println(x.(stringer).String())")
     add("assert-commaok", "x := boxs(\"s\"); v, ok := x.(int); println(v, ok)")
@@ -247,6 +260,12 @@ def cases(rng, n_extra):
     add("make-cap-lt-len", "n := oi(2); s := make([]int32, 3, n); println(len(s))")
     add("make-oversize", "n := oi(1 << 62); s := make([]int64, n); println(len(s))")
     add("make-oversize-const", "s := make([]int64, 1<<62); println(len(s))")
+    # zero-size element types: the byte-size tests cannot stand in for the sign tests
+    add("make-neg-zerosize", "n := oi(-1); s := make([]struct{}, n); println(len(s))")
+    add("make-neg-zerosize", "n := oi(-1); s := make([]struct{}, 2, n); println(len(s), cap(s))")
+    add("make-neg-zerosize", "n, m := oi(-3), oi(-1); s := make([][0]int, n, m); println(len(s), cap(s))")
+    add("make-neg-zerosize", "n := oi(1); s := make([][0]int, 3, n); println(len(s), cap(s))")
+    add("make-ok", "n := oi(1 << 40); s := make([]struct{}, n); println(len(s), cap(s))")
     add("make-ok", "n := oi(4); s := make([]int64, n, n+1); println(len(s), cap(s))")
     add("make-neg8", "n := oi8(-3); s := make([]byte, n); println(len(s))")
     add("make-chan-neg", "n := oi(-1); c := make(chan int, n); println(cap(c))")
